@@ -28,7 +28,7 @@ type dstSpec struct {
 }
 
 type corruptSpec struct {
-	Mode string `json:"mode"` // trunc | flip | garbage | gzhdr | zstdhdr | zstdfcs | snappylen | lz4len | empty
+	Mode string `json:"mode"`          // trunc | flip | garbage | gzhdr | zstdhdr | zstdfcs | snappylen | lz4len | empty
 	Pos  int    `json:"pos,omitempty"` // per-mille position (trunc, flip)
 	Bit  int    `json:"bit,omitempty"`
 	Len  int    `json:"len,omitempty"`
@@ -47,6 +47,7 @@ type history struct {
 	Codec      string `json:"codec"`
 	Goroutines int    `json:"goroutines,omitempty"` // > 0: every goroutine runs Ops (rotated) on the shared codec value at once
 	Ops        []op   `json:"ops"`
+	DeadlineS  int    `json:"deadline_s,omitempty"` // per-call deadline in the child (default 20 s; shrunk hang replays use 5 s)
 }
 
 var words = []string{"parquet", "column", "page", "the", "of", "and", "row", "group", "dictionary", "value", "null", "encoding", "a", "in", "to", "is", "compressed", "data", "0", "1", "42", "\n", ", ", "; "}
